@@ -3,6 +3,7 @@ CONSTANTS
   Val = {"v1", "v2", "v3", "v4", "v5"}
   Stranger = {"x1"}
   MaxReq = 8
+  Units = 2
   ExpSet = {2}
   PenaltySet = {2}
   DtSet = {1}
